@@ -110,6 +110,16 @@ def order_key(keyvals, desc):
     return tuple(Rev(vkey(v)) if d else vkey(v) for v, d in zip(keyvals, desc))
 
 
+def attributed_sigs(ans, agree, off_ok=True):
+    """Counterfactual attribution: the model's minimal set of present mechanisms whose repair (in
+    the model) restores the specification; only trusted when the model predicted the
+    implementation's rows (`agree`) and the optimizer-off run agrees with the oracle (`off_ok`)."""
+    attr = field(ans, "attr") or ["none"]
+    if not agree or not off_ok or attr == ["none"] or not attr:
+        return None
+    return list(attr)
+
+
 def bag(rows):
     return collections.Counter(tuple(r) for r in rows)
 
@@ -344,6 +354,8 @@ def judge_query(r, T, prop, qid, group, nrs):
     variants.append(("main", q, a, field(res, "on")[0], "exec", q["limit"], q["offset"] or 0, False))
     variants.append(("off", q, a, field(res, "off")[0], "execb", q["limit"], q["offset"] or 0, False))
     poolP = bag(row[:len(row) - nkeys] if nkeys else row for row in implU)
+    pending = []
+    oracle_ok = {}
     for which, qq, aa, implo, mfield, lim, off, withkeys in variants:
         impl = out_rows(implo)
         got = None if impl is None else [tuple(x) for x in impl]
@@ -392,21 +404,12 @@ def judge_query(r, T, prop, qid, group, nrs):
                 why = ("returns %d rows, expected %d" % (len(got), want)) if len(got) != want else \
                     "does not return rows %d.. of the key order (got keys/rows %s)" % (off + 1, got[:6])
         T.dist["variant:" + which] += 1
+        oracle_ok[which] = ok
         if ok and got and nrs >= 2:
             T.nontrivial.add((cid, sql))
         if not ok:
             T.ivo["disagree"] += 1
-            sig = None
-            if agree:
-                for p in PRECEDENCE:
-                    if p in tags:
-                        sig = p
-                        break
-            if sig is None:
-                sig = "unexplained:" + which
-            else:
-                T.explained[sig] += 1
-            T.findings.append((sig, "%s %s (case %d, %d row-sets)" % (sql, why, cid, nrs), rep))
+            pending.append((which, agree, "%s %s (case %d, %d row-sets)" % (sql, why, cid, nrs), rep, aa))
         # --- model (spec) vs oracle ---
         if which != "off":
             T.mvo["compared"] += 1
@@ -418,6 +421,15 @@ def judge_query(r, T, prop, qid, group, nrs):
             if not good:
                 T.mvo["disagree"] += 1
                 T.corr.append(("spec:" + which, "case %d: %s: the model's specification disagrees with the oracle" % (cid, sql), rep))
+    for which, agree, what, rep, aa in pending:
+        # optimizer-off counterfactual on the implementation: the unoptimized plan must be right
+        sigs = attributed_sigs(aa, agree, off_ok=(which == "off" or oracle_ok.get("off", False)))
+        if which == "off" or sigs is None:
+            T.findings.append(("unexplained:" + which, what, rep))
+            continue
+        for sg in sigs:
+            T.explained[sg] += 1
+            T.findings.append((sg, what + ("" if len(sigs) == 1 else " [jointly: %s]" % " + ".join(sigs)), dict(rep, attributed=sigs)))
     T.dist["limit=%s" % ("absent" if q["limit"] is None else ("0" if q["limit"] == 0 else ("big" if q["limit"] > 1000 else "small")))] += 1
     T.dist["offset=%s" % ("absent" if q["offset"] is None else ("0" if q["offset"] == 0 else ("big" if q["offset"] > 100 else "small")))] += 1
     T.dist["keys=%d" % nkeys] += 1
@@ -449,6 +461,129 @@ def judge_scan(r, T, prop, sreq, sm, si, nrs):
         T.mvi["disagree"] += 1
         T.corr.append(("scan", "case %d: storage scan %s: model and implementation disagree" % (cid, sreq), rep))
     return agree, mexec, impl
+
+
+# ---------------------------------------------------------------------------------------------
+# implementation-level counterfactuals: the same data / query with ONE thing changed must satisfy
+# the oracle, otherwise the attribution to that signature is wrong
+# ---------------------------------------------------------------------------------------------
+
+
+def sexp_str(x):
+    if isinstance(x, list):
+        return "(" + " ".join(sexp_str(y) for y in x) + ")"
+    return x
+
+
+def set_field(c, name, vals):
+    for i, x in enumerate(c):
+        if isinstance(x, list) and x and x[0] == name:
+            c[i] = [name] + vals
+            return
+    c.append([name] + vals)
+
+
+def cf_case(sig, line, qid):
+    """Returns the modified case line for the counterfactual of `sig`, or None if not applicable."""
+    import re
+    c = parse_sexp(line)
+    ops = field(c, "ops") or []
+    if sig == "order:pk-order-multi-rowset":
+        if any(o[0] != "ins" for o in ops):
+            return None
+        rows = [r for o in ops for r in o[1:]]
+        set_field(c, "ops", [["ins"] + rows])           # a single INSERT = a single row-set
+        set_field(c, "mode", ["bg"])
+        return sexp_str(c)
+    if sig == "topn:absent-limit":
+        qs = field(c, "queries")
+        for q in qs:
+            if int(q[1]) == qid and q[2] == "main":
+                sql = bytes.fromhex(q[3]).decode()
+                if " offset " not in sql or " limit " in sql:
+                    return None
+                q[3] = sql.replace(" offset ", " limit 100000 offset ").encode().hex()
+                q[7] = "100000"
+        return sexp_str(c)
+    if sig == "range:dup-keys-across-blocks":
+        set_field(c, "block", ["16384"])                  # one block per column: no boundary
+        return sexp_str(c)
+    if sig in ("range:key-not-first-scanned", "range:key-not-col0"):
+        pk = field(c, "pk")[0]
+        if pk in ("none", "0"):
+            return None
+        k = int(pk)
+
+        def m(i):
+            i = int(i)
+            return str(0 if i == k else (k if i == 0 else i))
+
+        def swap(lst):
+            lst = list(lst)
+            lst[0], lst[k] = lst[k], lst[0]
+            return lst
+
+        set_field(c, "cols", swap(field(c, "cols")))
+        set_field(c, "pk", ["0"])
+        new_ops = []
+        for o in ops:
+            if o[0] == "ins":
+                new_ops.append(["ins"] + [swap(r) for r in o[1:]])
+            elif o[0] == "del":
+                new_ops.append(["del", m(o[1])] + o[2:])
+            else:
+                new_ops.append(o)
+        set_field(c, "ops", new_ops)
+        for q in field(c, "queries"):
+            sql = bytes.fromhex(q[3]).decode()
+            sql = re.sub(r"\bc(\d+)\b", lambda mm: "c" + m(mm.group(1)), sql)
+            q[3] = sql.encode().hex()
+            for part in q[9:]:
+                if isinstance(part, list) and part and part[0] == "where":
+                    for a in part[1:]:
+                        a[0] = m(a[0])
+        for sc in field(c, "scans") or []:
+            sc[1] = ["cols"] + [m(x) for x in sc[1][1:]]
+        return sexp_str(c)
+    return None
+
+
+def run_counterfactuals(ck, T, binname, drv, judge):
+    """For the first finding of each attributed signature, re-runs its case with the mechanism's
+    precondition removed (single INSERT / explicit LIMIT / one block / key as column 0); the query
+    must then satisfy the oracle. Returns {sig: outcome}."""
+    out = {}
+    todo = []
+    for sig, what, rep in T.findings:
+        if sig.startswith("unexplained") or sig in out or "case" not in rep or len(rep.get("attributed") or [sig]) != 1:
+            continue
+        line = cf_case(sig, rep["case"], rep.get("qid"))
+        if line is None:
+            continue        # try a later finding of the same signature
+        out[sig] = "pending"
+        todo.append((sig, line, rep))
+    if not todo:
+        return out
+    lines = []
+    for k, (sig, line, rep) in enumerate(todo):
+        c = parse_sexp(line)
+        lines.append(line.replace("(case %s " % c[1], "(case %d " % (2000000 + k), 1))
+    res = run_cases(ck, binname, drv, lines, "cf")
+    for (sig, line, rep), r in zip(todo, res):
+        T2 = Tally()
+        judge(r, T2)
+        # the same query (or some storage scan) must now satisfy the oracle
+        if rep.get("qid") is not None:
+            still = [f for f in T2.findings if f[2].get("qid") == rep["qid"]]
+        else:
+            still = [f for f in T2.findings if "scan" in f[2]]
+        if still:
+            out[sig] = "counterfactual still fails"
+            T.findings.append(("cf-failed:" + sig, "attribution to %s not confirmed: with the precondition removed the query still fails: %s" % (sig, still[0][1]),
+                               {"case": r["line"], "original": rep.get("case"), "qid": rep.get("qid")}))
+        else:
+            out[sig] = "agrees with the oracle"
+    return out
 
 
 # ---------------------------------------------------------------------------------------------
@@ -523,8 +658,10 @@ def run(ck):
             ck.report("thm:" + name, "theorem %s no longer checks (%s); failing input: %s" % (name, st.get("status"), what), replay=rep, found_input=True)
         else:
             ck.report("thm:" + name, "theorem %s no longer checks: %s" % (name, st), replay={"theorem": name, "status": st}, found_input=False)
+    cfs = run_counterfactuals(ck, T, "c12", "drv_c12", lambda r, T2: judge_case(r, T2, "C12"))
     finish_reports(ck, T, "c12")
     ck.coverage.update({
+        "counterfactuals": cfs,
         "evaluations": T.mvi["compared"], "distinct_nontrivial": len(T.nontrivial),
         "rule": "distinct (case, SQL text, optimizer setting) whose table has >= 2 row-sets, whose result is non-empty and passes the oracle",
         "samples": T.samples[:8], "model_vs_impl": T.mvi, "impl_vs_oracle": T.ivo, "model_vs_oracle": T.mvo,
